@@ -1084,7 +1084,36 @@ retry:
 			}
 		default: // stop / skip
 			w = "end"
-			if len(m.bg) > 0 || !wantOK || m.noMoreBg {
+			if m.noMoreBg {
+				continue
+			}
+			if len(m.bg) > 0 {
+				// skip with jobs outstanding: they are interrupted and waited for, and their status
+				// expectations still count - a hanging job dies of the signal, which is a failure: fine
+				// for "! exec ... &", a failing line for "exec ... &". (Jobs that end by themselves
+				// would race with the signal: only when every job hangs.)
+				allHang, bad := true, false
+				for _, b := range m.bg {
+					if !b.hang {
+						allHang = false
+					}
+					if !b.neg {
+						bad = true
+					}
+				}
+				if !allHang || bad == wantOK || m.r.Intn(3) != 0 {
+					continue
+				}
+				t = m.pick([]string{"skip", "skip 'jobs outstanding'"})
+				if bad {
+					o = oFail
+					ap = func() { m.bg = nil; m.stdoutKnown = false; m.bgBroken() }
+				} else {
+					o = oSkip
+				}
+				break
+			}
+			if !wantOK {
 				continue
 			}
 			if m.r.Intn(4) != 0 {
